@@ -510,6 +510,25 @@ Definition unset_arg (u : universe) (s : gstate) (inst : nat) (a : name) (arg : 
 Definition update_node (s : gstate) (n : nat) (f : node -> node) : option gstate :=
   match get_node s n with Some nd => Some (set_node s n (Some (f nd))) | None => None end.
 
+(** [IndexMap::shift_remove] by key: the entry of the key goes, the order of the others is kept *)
+Fixpoint shift_remove {B} (l : list (name * B)) (k : name) : list (name * B) :=
+  match l with
+  | [] => []
+  | (k', v) :: r => if N.eqb k' k then r else (k', v) :: shift_remove r k
+  end.
+
+(** the export map once [export] has replaced the node's export name: a type definition is RENAMED
+    (its previous name leaves the map), any other node keeps its earlier export names *)
+Definition exports_renamed (s : gstate) (n : nat) : list (name * nat) :=
+  match get_node s n with
+  | Some nd =>
+      match nk nd, nexport nd with
+      | NDef, Some previous => shift_remove (exports s) previous
+      | _, _ => exports s
+      end
+  | None => exports s
+  end.
+
 Definition export_ (u : universe) (s : gstate) (n : nat) (e : name) : gstate * outcome :=
   match alist_get N.eqb (exports s) e with
   | Some m => (s, OErr (ExportAlreadyExists m))
@@ -518,7 +537,7 @@ Definition export_ (u : universe) (s : gstate) (n : nat) (e : name) : gstate * o
       match update_node s n (fun nd => {| nk := nk nd; npkg := npkg nd; nitem := nitem nd; nname := nname nd;
                                           nexport := Some e |}) with
       | None => (s, OPanic PInvalidNodeId)
-      | Some s1 => (with_maps s1 (imports s1) (exports s1 ++ [(e, n)]) (defined s1), OUnit)
+      | Some s1 => (with_maps s1 (imports s1) (exports_renamed s n ++ [(e, n)]) (defined s1), OUnit)
       end
   end.
 
